@@ -7,6 +7,7 @@ mod common;
 mod stylefmt;
 mod treegen;
 mod c02;
+mod c09;
 mod evaltree;
 mod pairs;
 mod c07;
@@ -79,6 +80,7 @@ fn main() {
     let mut out = Out::new(&out_dir);
     let extra = match prop.as_str() {
         "C02" => c02::run(&cfg, &mut out),
+        "C09" => c09::run(&cfg, &mut out),
         "EVAL" => evaltree::run(&cfg, &mut out),
         "C04" => pairs::run_c04(&cfg, &mut out),
         "C05" => pairs::run_c05(&cfg, &mut out),
